@@ -5,6 +5,10 @@
 (* Monitors (verdicts):                                                                          *)
 (*   C05.Binding / C11.Binding / C04.EvidenceIdentity  : the digests differ (every obligation is *)
 (*        over Required fields);                                                                 *)
+(*   C11.StoredBodyIsVotedBody : for every attestation found in the store after the two claims went *)
+(*        through the real msg server, the key equals the key recomputed from the STORED claim body  *)
+(*        and the stored body agrees with what EACH recorded voter submitted on every field but the  *)
+(*        voter identity / tx metadata;                                                              *)
 (*   <pid>.FieldTableComplete : the field list obtained by reflection over the real item type    *)
 (*        equals Fields(kind) -- a field added to the code must be classified in the table;      *)
 (*   <pid>.KindTableComplete  : the item types found in the code are the kinds of the table;     *)
@@ -36,6 +40,12 @@ TrCheck == IsEvent("Check") /\
       /\ o \in Obl =>
            /\ Report(Monitor(pid), e.res = "ok" => e.differs)
            /\ Conf("Table", e.res = "ok" => (e.differs = Binds(o)))
+           /\ (pid = "C11" /\ e.res = "ok") =>
+                /\ Report("Setup.AttestationsObserved", Len(e.atts) >= 1 /\ \A a \in SetOf(e.atts) : a.unknown_voters = 0 /\ a.votes >= 1)
+                /\ Report("C11.StoredBodyIsVotedBody",
+                          \A a \in SetOf(e.atts) :
+                             \/ a.key = a.body_key /\ SetOf(a.diff) \subseteq Excluded(o.kind)
+                             \/ ~Detail(<<"stored body is not what was voted", o, a>>))
            /\ o.mode # "cross" =>
                 Report(pid \o ".FieldTableComplete",
                        seen = Fields(o.kind) \/ ~Detail(<<"unlisted field", o.kind, seen \ Fields(o.kind),
